@@ -106,6 +106,14 @@ func (e *Engine) VerifyFunc(t unitTarget) *Unit {
 	}()
 	info := fi.Pkg.TypesInfo
 	c := &ExecCtx{u: u, info: info, pkg: fi.Pkg, fn: fi, spec: t.spec, lit: t.lit, binds: map[string]Val{}}
+	u.boxVar = func(bst *State, v *types.Var) {
+		u.quiet++
+		curV := c.readVar(bst, v)
+		u.quiet--
+		ref := c.alloc(bst, v.Name())
+		c.storeThrough(bst, ref, v.Type(), curV.T)
+		u.varSet(bst, v, boxTerm(ref))
+	}
 	st := newState()
 	var ftype *ast.FuncType
 	var body *ast.BlockStmt
